@@ -370,6 +370,9 @@ def run_harness(h: Harness, res: Result, *, tier, timeout_ms, seed, known, prop,
     res.stats["solver_s"] += eng.solver_time
     row["wall_s"] = round(time.time() - t0, 2)
     row["axioms"] = len(eng.axioms)
+    if os.environ.get("VF_PROGRESS"):
+        print("  .. %s: %d paths, %d obligations, %.1fs%s" % (h.name, len(paths), row["obligations"], row["wall_s"],
+                                                                 "" if exhaustive else " NOT EXHAUSTIVE"), file=sys.stderr, flush=True)
     res.harness_rows.append(row)
     for f in h.functions:
         try:
